@@ -21,12 +21,15 @@ PROPS = {
          "lookups, setdefault/pop, split, clear) against whole-view postconditions, plus _Tree._search and compare; C: every "
          "expansion of the binary-search macros BUCKET_SEARCH / BTREE_SEARCH in the integer-keyed translation units (F-SEARCH: found "
          "<=> key at the returned index, absent => insertion point, interior nodes pick the child whose separator range holds the key, "
-         "reads in bounds, no int overflow, termination - for all lengths, contents and keys); the first-bucket protocol of deletions in "
+         "reads in bounds, no int overflow, termination - for all lengths, contents and keys); _bucket_set - insert / replace / delete "
+         "in a C leaf - against the whole-view contract with Bucket_grow executed in place (F-LEAF: exactly one slot inserted / "
+         "changed / removed, every other entry untouched, keys stay strictly ascending, nothing changed on rejection or failure); the first-bucket protocol of deletions in "
          "_BTree_set (F-UNLINK: the left sibling unlinks, status 2 only from the first child). "
          "Bounded: the interior-node level of both implementations and the rest of the C leaf layer (hist_rt, model mode, incl. in-place "
          "operators with self / repeating operands and rejected writes on empty trees).",
          "A1 Python semantics as encoded, A2 total order on keys, A3 persistent.__setattr__, A5, A6, A7 z3 + VC generator; "
-         "F-SEARCH assumes the vector ascending at the start of a search and len <= INT_MAX/2; "
+         "F-SEARCH / F-LEAF assume the vector ascending at the start of a search, len <= INT_MAX/2, realloc / malloc blocks overlapping "
+         "no live block, noval passed only for set leaves; "
          "L-hist (refinement implies histories) is argued in DESIGN.md 5.4, not machine-checked", "7/C01 and 13.2"),
  "C02": (True, "proof", T_P + "; " + T_C + BOUNDED,
          "Proved (Python): _range for every bound/flag combination, keys/values slices, leaf minKey/maxKey against the interval oracle "
